@@ -796,9 +796,14 @@ impl Value {
             f: impl Fn(A) -> T,
             g: impl Fn(T) -> E,
         ) -> UiuaResult<Array<E>> {
-            validate_size::<E>(shape.iter().copied(), env)?;
-            let mut data = EcoVec::with_capacity(shape.elements());
-            for i in 0..shape.elements() {
+            let elem_count = validate_size::<E>(shape.iter().copied(), env)?;
+            // Do not allocate for elements that the input does not have
+            let available = bytes.len() / size_of::<A>();
+            if available < elem_count {
+                return Err(env.error(format!("Missing data for element {available}")));
+            }
+            let mut data = EcoVec::with_capacity(elem_count);
+            for i in 0..elem_count {
                 if bytes.len() < size_of::<A>() {
                     return Err(env.error(format!("Missing data for element {i}")));
                 }
@@ -833,7 +838,7 @@ impl Value {
                     .map_err(|e| env.error(format!("Failed to parse string: {e}")))?;
                 *bytes = &bytes[byte_count as usize..];
                 let data: EcoVec<char> = s.chars().collect();
-                if shape.elements() != data.len() {
+                if validate_size::<char>(shape.iter().copied(), env)? != data.len() {
                     return Err(env.error(format!(
                         "Shape implies {shape} characters, but got {}",
                         data.len()
@@ -849,8 +854,16 @@ impl Value {
             })?
             .into(),
             BinType::Box => {
-                let mut data = EcoVec::with_capacity(shape.elements());
-                for i in 0..shape.elements() {
+                let elem_count = validate_size::<Boxed>(shape.iter().copied(), env)?;
+                // Every element takes at least one byte
+                if bytes.len() < elem_count {
+                    return Err(env.error(format!(
+                        "Missing data for box element {}",
+                        bytes.len()
+                    )));
+                }
+                let mut data = EcoVec::with_capacity(elem_count);
+                for i in 0..elem_count {
                     let val = Self::from_binary_impl(bytes, depth + 1, env)
                         .map_err(|e| env.error(format!("Failed to parse box element {i}: {e}")))?;
                     data.push(Boxed(val));
